@@ -33,7 +33,19 @@ Inductive call : Type :=
 | CReturn (pages seed v : N) (o : obs)
 (* write path: consume_buffer (id = Some) with the runtime's table holding the buffer or not, or the
    test-only write of zeros (id = None) *)
-| CWrite (name : string) (pages seed : N) (id : option N) (present : bool) (dest : N) (d : data_spec) (o : obs).
+| CWrite (name : string) (pages seed : N) (id : option N) (present : bool) (dest : N) (d : data_spec) (o : obs)
+(* engine level, the real ScryptoRuntime table inside a transaction (fresh table per call frame): after
+   `prior` allocate+consume pairs and one more allocate_buffer, buffer_consume(id, valid pointer) *)
+| CBufTx (prior max id : N) (o : obs)
+(* same history, then the live buffer (at least `len` bytes) is consumed into `dest`; the instance's
+   memory has at most `pages` pages (MAX_MEMORY_SIZE_IN_PAGES, enforced by the validator): a range
+   outside the largest memory is outside every memory *)
+| CBufPtr (prior max pages dest len : N) (o : obs).
+
+Definition nseq (n : N) : list N := map N.of_nat (seq 0 (N.to_nat n)).
+Definition prior_ops (prior : N) : list bop := flat_map (fun k => [BAlloc []; BConsume k]) (nseq prior).
+Definition obs_of_bout (b : bout) : obs :=
+  match b with OData _ => ObsOk [] | OErr e => ObsErr e | _ => ObsOther end.
 
 (* observed memory after the call: size, position-weighted checksum, sampled (index, byte) *)
 Definition post_t := (N * N * list (N * N))%type.
@@ -97,9 +109,20 @@ Definition run_call (c : call) : obs * mem :=
       let '(r, _, m') := consume_buffer st m i dest in (obs_of_unit r, m')
     | None => let '(r, m') := write_memory m dest (data_of d) in (obs_of_unit r, m')
     end
+  | CBufTx prior max id _ =>
+    (obs_of_bout (last (brun (bufs_new max) (prior_ops prior ++ [BAlloc [0]; BConsume id])) (OErr TooManyBuffers)),
+     pat_mem 0 0)
+  | CBufPtr prior max pages dest len _ =>
+    match bexec (bufs_new max) (prior_ops prior ++ [BAlloc (repeat 0 (N.to_nat len))]) with
+    | Some st => let '(r, _, _) := consume_buffer st (pat_mem pages 0) prior dest in (obs_of_unit r, pat_mem 0 0)
+    | None => (ObsOther, pat_mem 0 0)
+    end
   end.
 Definition observed (c : call) : obs :=
-  match c with CHost _ _ _ _ _ o => o | CReturn _ _ _ o => o | CWrite _ _ _ _ _ _ _ o => o end.
+  match c with
+  | CHost _ _ _ _ _ o => o | CReturn _ _ _ o => o | CWrite _ _ _ _ _ _ _ o => o
+  | CBufTx _ _ _ o => o | CBufPtr _ _ _ _ _ o => o
+  end.
 
 Definition check (c : case) : bool :=
   let '(o, m') := run_call (fst c) in
